@@ -30,26 +30,26 @@ const (
 func (r Result) String() string { return [...]string{"unsat", "sat", "unknown"}[r] }
 
 type Solver struct {
-	kind    string // z3 | z3-new | cvc5
-	cmd     *exec.Cmd
-	in      io.WriteCloser
-	out     *bufio.Reader
-	defined map[int]bool
-	declUF  map[string]bool
-	ctx     *Ctx
-	Queries int
-	NSat    int
-	NUnsat  int
-	NUnk    int
-	Time    time.Duration
-	timeout int // ms per query
-	Errors  []string
+	kind         string // z3 | z3-new | cvc5
+	cmd          *exec.Cmd
+	in           io.WriteCloser
+	out          *bufio.Reader
+	defined      map[int]bool
+	declUF       map[string]bool
+	ctx          *Ctx
+	Queries      int
+	NSat         int
+	NUnsat       int
+	NUnk         int
+	Time         time.Duration
+	timeout      int // ms per query
+	Errors       []string
 	sinceRestart int
-	Log     io.Writer
+	Log          io.Writer
 	// incremental assertion stack: one push level per path-condition conjunct
-	stack  []*Term
-	levels [][]int // term IDs named (declared) at each level; levels[0] is the base
-	named  map[int]bool
+	stack     []*Term
+	levels    [][]int // term IDs named (declared) at each level; levels[0] is the base
+	named     map[int]bool
 	pendingUF []string
 }
 
